@@ -60,6 +60,14 @@ def linkedTokenId (C : Crypto) (st : State) (deployer salt : Bytes) : Bytes :=
 def deployApprovalKey (C : Crypto) (minter tokenId destChain : Bytes) : Bytes :=
   C.H (C.H Generated.PREFIX_DEPLOY_APPROVAL ++ minter ++ tokenId ++ nestBuf destChain)
 
+/-- `use_deploy_approval`: present, equal to the hash of the requested destination minter, and
+    then consumed -/
+def useDeployApproval (C : Crypto) (st : State) (minter tokenId destChain destMinter : Bytes) : Option State :=
+  let key := deployApprovalKey C minter tokenId destChain
+  if !(st.approvedMinters key).isEmpty && st.approvedMinters key == C.H destMinter then
+    some { st with approvedMinters := upd st.approvedMinters key [] }
+  else none
+
 /-! ### trusted routes (address_tracker.rs, proxy_gmp.rs:168-207, executable.rs:27-60) -/
 
 def isTrustedAddress (st : State) (chain addr : Bytes) : Bool :=
